@@ -421,5 +421,89 @@ func computeAliases(prog *ssa.Program, allFns map[*ssa.Function]bool, verifDir s
 			}
 		}
 	}
+	// 4. method <-> function conversions: "(*T).m(args)" became "m(t, args)" (or back)
+	cur = snapshot(prog, allFns)
+	baseName := func(n string) string {
+		if i := strings.LastIndex(n, "."); i >= 0 {
+			return n[i+1:]
+		}
+		return n
+	}
+	paramBag := func(f symFunc) []string {
+		// parameter types of the signature string "func(a T1, b T2) R" plus the receiver
+		sig := f.Sig
+		var out []string
+		if i := strings.Index(sig, "("); i >= 0 {
+			depth, start := 0, i+1
+			for j := i; j < len(sig); j++ {
+				switch sig[j] {
+				case '(', '[', '{':
+					depth++
+				case ')', ']', '}':
+					depth--
+					if depth == 0 {
+						if j > start {
+							out = append(out, strings.TrimSpace(sig[start:j]))
+						}
+						j = len(sig)
+					}
+				case ',':
+					if depth == 1 {
+						out = append(out, strings.TrimSpace(sig[start:j]))
+						start = j + 1
+					}
+				}
+			}
+		}
+		for i, p := range out {
+			// drop the parameter name
+			if k := strings.Index(p, " "); k >= 0 {
+				out[i] = p[k+1:]
+			}
+		}
+		if f.Recv != "" {
+			out = append(out, f.Recv)
+		}
+		sort.Strings(out)
+		return out
+	}
+	var missM, newM []string
+	for n := range rec.Funcs {
+		if _, ok := cur.Funcs[n]; !ok {
+			missM = append(missM, n)
+		}
+	}
+	for n := range cur.Funcs {
+		if _, ok := rec.Funcs[n]; !ok {
+			newM = append(newM, n)
+		}
+	}
+	sort.Strings(missM)
+	sort.Strings(newM)
+	for _, m := range missM {
+		rm := rec.Funcs[m]
+		var cands []string
+		for _, n := range newM {
+			cn := cur.Funcs[n]
+			if cn.Pkg != rm.Pkg || baseName(n) != baseName(m) || (cn.Recv == "") == (rm.Recv == "") {
+				continue
+			}
+			if strings.Join(paramBag(cn), ";") == strings.Join(paramBag(rm), ";") {
+				cands = append(cands, n)
+			}
+		}
+		if len(cands) == 1 {
+			dup := false
+			for _, a := range aliasFuncs {
+				if a[0] == cands[0] {
+					dup = true
+				}
+			}
+			if !dup {
+				aliasFuncs = append(aliasFuncs, [2]string{cands[0], m})
+				aliasNotes = append(aliasNotes, fmt.Sprintf("function %s is taken for the recorded %s (method/function conversion: same package, name and parameter types)", cands[0], m))
+			}
+		}
+	}
 	sort.Strings(aliasNotes)
 }
